@@ -67,7 +67,7 @@ def programs(ctx):
             out.append({"id": "%s|%s" % (cn, wn), "src": w(core) + "\np(99)", "threads": th + THREADS.get(wn, 0)})
     pairs = [(a, b) for a in WRAPS for b in WRAPS]
     rng.shuffle(pairs)
-    npairs = 40 if ctx.quick() else len(pairs)
+    npairs = 40 if ctx.quick() else 160
     cores = list(CORES.items())
     for i, (a, b) in enumerate(pairs[:npairs]):
         for cn, (core, th) in (cores if not ctx.quick() else [cores[i % len(cores)], cores[(i * 7 + 3) % len(cores)]]):
@@ -92,7 +92,7 @@ def run(ctx):
         else:
             vlib.tlc_must_fail(ctx, r, "wrong design %s must be refuted" % c[4:], expect=exp)
     progs = programs(ctx)
-    maxgate = 14 if ctx.quick() else 40
+    maxgate = 14 if ctx.quick() else 30
     n = 12
     def shard(k):
         part = [p for i, p in enumerate(progs) if i % n == k]
